@@ -5,7 +5,7 @@
 //!   labels_random       random label vectors, length <= 60, alphabets <= 5, label sets differing between the sides
 //!   regression          max/mean/median absolute error, MSE, MSLE, MAPE, R2, explained variance; f32/f64; 1-D, 2-D, datasets
 //!   roc_random          ROC curve, AUC (= Mann-Whitney), log-loss on grid / boundary / fine scores
-//!   roc_exhaustive      every (score, label) vector over scores {0, 1/2, 1}, length <= 5 / 7
+//!   roc_exhaustive      every (score, label) vector over scores {-0.0, +0.0, 1/2, 1}, length <= 5 / 6 (7 without -0.0)
 //!   roc_near_ties       raw f32 scores a few ulps apart at magnitudes 1e-6 .. 1 (and next to 0 and 1)
 //!   roc_adjacent_exhaustive  every vector over {base, base+1ulp, base+2ulp} x label for eleven bases
 //!   silhouette          O(n^2) definition, clusters of >= 2 distinct points, plain and derived datasets
@@ -26,8 +26,8 @@ pub fn property() -> Property {
         id: "C05",
         rule: "label vectors: exhaustive over alphabets of 2 symbols (length 1..=6) and 3 symbols (length 1..=5 quick / 6 thorough), both vectors, \
                label type (bool/usize/String) and beta rotating; random vectors of length <= 60 over <= 5 symbols whose label sets overlap only partly. \
-               Probability vectors: every (score,label) vector over scores {0,1/2,1} up to length 5 (7 thorough) plus random vectors (length 2..=40) over the grid j/8, \
-               the boundaries 0 and 1, a small tie pool and fine scores k/2^20, plus raw-f32 scores 0..=4 ulps around up to three base values at magnitudes 2^-21..1 (and around 0 and 1) \
+               Probability vectors: every (score,label) vector over scores {-0.0,+0.0,1/2,1} up to length 5 (6 thorough; length 7 over {+0.0,1/2,1}) plus random vectors (length 2..=40) over the grid j/8, \
+               the boundaries 0 (spelled +0.0 or -0.0, mixed within a vector) and 1, a small tie pool and fine scores k/2^20, plus raw-f32 scores 0..=4 ulps around up to three base values at magnitudes 2^-21..1 (and around 0 and 1) \
                (random, length 2..=24, and exhaustive over {base, base+1ulp, base+2ulp} x label up to length 4 / 5 for eleven bases); both classes present. Real vectors/matrices (length 2..=40, 1..=3 columns, f32 and f64): \
                small integers, halves, N(0,1)*10^s (s in -2..=3), positive data, common offsets up to 1000 spreads, truth non-constant by construction. \
                Clusterings: 2..=4 clusters of >= 2 distinct points, 4..=30 points in 1..=3 dims (lattice / separated / overlapping), each scored as plain Dataset and through the construction histories \
@@ -42,7 +42,7 @@ pub fn property() -> Property {
             "precision/recall/F-beta are the *documented* functions of the cells: binary c00/(c00+c10) and c00/(c00+c01), otherwise the macro average over the one-vs-all matrices [[tp,fp],[fn,tn]]; 0/0 must be NaN on both sides".into(),
             format!("scores derived from integer cells are f32; tolerance {:e} * max(1,|value|) (64 eps_f32)", labels::RATIO_TOL),
             "empty label vectors are not generated (every score is 0/0 there)".into(),
-            format!("ROC scores are arbitrary f32 in [0,1] (grid multiples of 2^-20 in roc_random / roc_exhaustive, raw bit patterns incl. subnormals in roc_near_ties / roc_adjacent_exhaustive); a tie is an *equal* score; AUC tolerance {:e} (64 eps_f32); both classes present", roc::AUC_TOL),
+            format!("ROC scores are arbitrary f32 in [0,1] (grid multiples of 2^-20 in roc_random / roc_exhaustive, raw bit patterns incl. subnormals in roc_near_ties / roc_adjacent_exhaustive); a tie is an *equal* score (-0.0 == +0.0: both are the lowest score and tie with each other); AUC tolerance {:e} (64 eps_f32); both classes present", roc::AUC_TOL),
             "linfa's absolute 1e-10 grouping of distinct scores is recognised by its own signature (known finding roc:distinct-scores-within-1e-10-merged) only when the returned curve is exactly the curve of that rule; any other AUC deviation fails as roc:auc".into(),
             "ROC thresholds (get_thresholds) are not part of the statement and are not judged".into(),
             "log-loss clips to [f32::EPSILON, 1 - f32::EPSILON]; the reference is evaluated in f64 with the error bound below".into(),
